@@ -4,6 +4,7 @@ import (
 	"bytes"
 	"encoding/hex"
 	"fmt"
+	logger "github.com/ElrondNetwork/elrond-go-logger"
 	"math/big"
 	"math/rand"
 	"sort"
@@ -76,6 +77,14 @@ func RandSchedule(r *rand.Rand, gen int) Schedule {
 
 // NewWorld builds the world of a configuration: universe, shards, genesis accounts.
 func NewWorld(cfg Config) (*World, error) {
+	// the process log level is a node configuration like any other (operators do run with TRACE);
+	// nothing is written anywhere (no observer), only the level is set
+	logger.ClearLogObservers()
+	if cfg.TraceLog {
+		_ = logger.SetLogLevel("*:TRACE")
+	} else {
+		_ = logger.SetLogLevel("*:INFO")
+	}
 	r := rand.New(rand.NewSource(cfg.CfgSeed))
 	u := &Universe{NumShards: cfg.NumShards, Owner: map[string][]byte{}}
 	for i := 0; i < cfg.NumUsers; i++ {
@@ -147,6 +156,10 @@ func NewWorld(cfg Config) (*World, error) {
 		md := vmcommon.CodeMetadata{Payable: st == Payable, Upgradeable: r.Intn(2) == 0, Readable: r.Intn(2) == 0}
 		// contract accounts come into being through the real deploy-arguments parser
 		code := []byte{0xde, 0xad, byte(i)}
+		if r.Intn(40) == 0 {
+			// an ordinary-sized contract: one field of more than 64 K hex characters
+			code = append(code, make([]byte, []int{32765, 32766, 40000}[r.Intn(3)])...)
+		}
 		var ctorArgs [][]byte
 		for k := r.Intn(4); k > 0; k-- {
 			a := make([]byte, r.Intn(3))
@@ -202,6 +215,8 @@ func NewWorld(cfg Config) (*World, error) {
 			w.violate(spec.Violation{Props: spec.P("C18"), Clause: "construction", Detail: fmt.Sprintf("building the functions of shard %d from a valid configuration failed: %v", s, err)})
 			return w, nil
 		}
+		nd.Store.ScratchReads = cfg.ScratchReads
+		nd.Store.NilTrie = cfg.NilTrie
 		nd.Codec.Report = func(detail string) {
 			w.violate(spec.Violation{Props: spec.P("C14"), Clause: "codec", Detail: detail})
 		}
@@ -219,7 +234,8 @@ func NewWorld(cfg Config) (*World, error) {
 		// pre-history (written with the oracle's reference encoder): for each SFT/NFT token a creator
 		// that holds the create role (plus the other roles of the kind), a counter near a byte
 		// boundary and one old piece (nonce 1) it still holds
-		counters := []uint64{254, 255, 256, 510, 511, 65534, 65535, 1<<32 - 2}
+		// byte-length boundaries of the big-endian spelling and of the base-128 (varint) spelling
+		counters := []uint64{254, 255, 256, 510, 511, 65534, 65535, 1<<32 - 2, 126, 127, 16382, 16383, 1<<21 - 2, 1<<21 - 1, 1<<28 - 1, 1<<35 - 1}
 		for i, t := range u.Tokens {
 			if t.Kind == KindFungible || len(u.Users) == 0 || r.Intn(3) == 0 {
 				continue
@@ -383,6 +399,26 @@ func (w *World) Apply(ev Event) bool {
 		if ev.Shard >= uint32(len(w.Nodes)) {
 			return false
 		}
+		if ev.Probe == "replace" {
+			// a fresh instance of a function (built by another factory with the same configuration) is
+			// put under the same name; the function must not have been removed
+			known := false
+			for _, n := range spec.AllFunctions {
+				known = known || n == ev.ID
+			}
+			nd := w.Nodes[ev.Shard]
+			if !known || nd.HostRemoved[ev.ID] {
+				return false
+			}
+			if err := nd.HostReplace(ev.ID); err != nil {
+				w.violate(spec.Violation{Props: spec.P("C18"), Clause: "registry", Detail: fmt.Sprintf("shard %d: replacing %s by a fresh instance through the container API failed: %v", nd.ID, ev.ID, err)})
+				break
+			}
+			w.Stats.Faults["function-replaced-by-fresh-instance-by-host"]++
+			w.logf("host replaces %s in the container of shard %d by a fresh instance", ev.ID, ev.Shard)
+			w.CheckRegistry(nd)
+			break
+		}
 		ok := false
 		for _, n := range RemovableFunctions {
 			ok = ok || n == ev.ID
@@ -439,6 +475,7 @@ func (w *World) Apply(ev Event) bool {
 	w.checkRetained()
 	for _, o := range w.toConsume {
 		w.retain(o)
+		w.hostFold(o)
 		if problem := ConsumeOutput(o); problem != "" {
 			w.violate(spec.Violation{Props: spec.P("C01", "C10", "C13"), Clause: "output-ownership", Detail: problem})
 		}
@@ -488,6 +525,10 @@ var RemovableFunctions = []string{spec.FnClaimRewards, spec.FnChangeOwner, spec.
 
 // CheckRegistry checks C18's registry half and the activation flags of a shard.
 func (w *World) CheckRegistry(nd *Node) {
+	if nd.BuildProblem != "" {
+		w.violate(spec.Violation{Props: spec.P("C09"), Clause: "fail-open-default", Detail: fmt.Sprintf("shard %d: %s", nd.ID, nd.BuildProblem)})
+		nd.BuildProblem = ""
+	}
 	names := nd.ContainerNames()
 	var want []string
 	for _, n := range spec.AllFunctions {
@@ -499,6 +540,19 @@ func (w *World) CheckRegistry(nd *Node) {
 	if fmt.Sprint(names) != fmt.Sprint(want) || nd.Container.Len() != len(want) {
 		w.violate(spec.Violation{Props: spec.P("C18"), Clause: "registry", Detail: fmt.Sprintf("shard %d container holds %v (len %d), the protocol defines %v", nd.ID, names, nd.Container.Len(), want)})
 		return
+	}
+	// the container answers for these names and for no other: a name that merely looks like one
+	// (surrounding white space, another case, a cut or extended spelling) is not a built-in function
+	for _, n := range spec.AllFunctions {
+		for _, v := range []string{n + " ", " " + n, n + "\n", "\t" + n, n + "\x00", strings.ToLower(n), strings.ToUpper(n), n[:len(n)-1], n + "2", n + "@"} {
+			if v == n {
+				continue
+			}
+			if bf, err := nd.Container.Get(v); err == nil && bf != nil {
+				w.violate(spec.Violation{Props: spec.P("C18"), Clause: "registry", Detail: fmt.Sprintf("shard %d: the container resolves %q, which is not one of the protocol's names", nd.ID, v)})
+				return
+			}
+		}
 	}
 	for _, n := range want {
 		bf, err := nd.Container.Get(n)
@@ -627,4 +681,58 @@ func trunc(s string, n int) string {
 		return s[:n] + "..."
 	}
 	return s
+}
+
+// hostFold: the host keeps one accumulated output account per address and folds every later
+// snapshot of that account into it with the library's MergeOutputAccounts, the way a VM host folds
+// the output of a nested call into an earlier checkpoint: the later snapshot lists the transfers so
+// far plus the new ones, the merge takes over the new ones. Afterwards the accumulated account must
+// list exactly what the snapshots listed (C01/C10: a message taken over wrongly is a message lost
+// and another one sent twice).
+func (w *World) hostFold(out *vmcommon.VMOutput) {
+	if out == nil {
+		return
+	}
+	if w.folded == nil {
+		w.folded = map[string]*vmcommon.OutputAccount{}
+		w.foldedWant = map[string][]string{}
+	}
+	keys := make([]string, 0, len(out.OutputAccounts))
+	for k := range out.OutputAccounts {
+		keys = append(keys, k)
+	}
+	sort.Strings(keys)
+	for _, k := range keys {
+		oa := out.OutputAccounts[k]
+		if oa == nil || len(oa.OutputTransfers) == 0 {
+			continue
+		}
+		acc := w.folded[k]
+		if acc == nil || len(acc.OutputTransfers) >= 6 {
+			acc = &vmcommon.OutputAccount{}
+			w.folded[k] = acc
+			w.foldedWant[k] = nil
+		}
+		// the later snapshot: what the account listed so far, then this call's transfers (copies)
+		snap := &vmcommon.OutputAccount{Address: append([]byte{}, oa.Address...)}
+		snap.OutputTransfers = append(snap.OutputTransfers, acc.OutputTransfers...)
+		for _, t := range oa.OutputTransfers {
+			c := t
+			c.Data = append([]byte{}, t.Data...)
+			if t.Value != nil {
+				c.Value = new(big.Int).Set(t.Value)
+			}
+			snap.OutputTransfers = append(snap.OutputTransfers, c)
+			w.foldedWant[k] = append(w.foldedWant[k], string(t.Data))
+		}
+		acc.MergeOutputAccounts(snap)
+		var got []string
+		for _, t := range acc.OutputTransfers {
+			got = append(got, string(t.Data))
+		}
+		if fmt.Sprint(got) != fmt.Sprint(w.foldedWant[k]) {
+			w.violate(spec.Violation{Props: spec.P("C01", "C10"), Clause: "output-ownership", Detail: fmt.Sprintf("the host folded a later snapshot of the output account %x into its checkpoint with MergeOutputAccounts: the checkpoint lists %q, the snapshots listed %q", k, got, w.foldedWant[k])})
+			w.folded[k] = nil
+		}
+	}
 }
